@@ -311,7 +311,7 @@ static void part_unsplit(const Args& a, const std::vector<FileRef>& files) {
                 ++C["valid_seeds_not_decoded_as_the_generator_expects"];
                 benum::note("seed " + s.name + " in one piece: " + d.brief() + " - generator expects " + std::to_string(s.expect.size()) + " objects" + (d.objs.size() == s.expect.size() ? ", first difference: " + [&] { for (size_t i = 0; i < d.objs.size(); ++i) if (d.objs[i] != s.expect[i]) return d.objs[i] + " <> " + s.expect[i]; return std::string(); }() : ""));
             } else ++C["seeds_decoded_as_the_generator_expects"];
-            if (a.shard == 0 && (s.name == "opl-mixed-noeol" || s.name == "opl-error-line3" || s.name == "xml-changesets" || s.name == "o5c-hist-jump" || s.name == "pbf-plain-zlib"))
+            if ((s.name == "opl-mixed-noeol" || s.name == "opl-error-line3" || s.name == "xml-changesets" || s.name == "o5c-hist-jump" || s.name == "pbf-plain-zlib"))
                 benum::sample(s.name + " (" + std::to_string(f.len) + " bytes) unsplit -> " + d.brief().substr(0, 330));
         }
     };
@@ -375,6 +375,10 @@ int main(int argc, char** argv) {
         [](int) { return new ChunkingDecompressor; },
         [](const char*, size_t) { return new ChunkingDecompressor; });
     if (a.replay) { a.shard = 0; a.nshards = 1; replay(a, a.replay_spec); C.emit(); return 0; }
+    {   // self-check of the rank <-> pair bijection
+        std::set<std::pair<uint32_t, uint32_t>> seen; Cuts c; std::string seg;
+        for (uint64_t i = 0; i < Job::count(PAIRS, 40); ++i) { make_case(PAIRS, 40, i, true, c, seg); if (c.size() != 2 || c[0] < 1 || c[0] >= c[1] || c[1] > 39 || !seen.insert({c[0], c[1]}).second) { fprintf(stderr, "pair unranking broken\n"); return 2; } }
+    }
 
     // input sets
     std::vector<FileRef> seeds, prefixes;
